@@ -5,7 +5,7 @@ import textwrap
 
 from debian.debian_support import BaseVersion, Version
 
-from ..hx import assume, require, Skip
+from ..hx import assume, require, Skip, reach
 
 MANIFEST = dict(
     engines="AB",
@@ -115,6 +115,37 @@ def h_accept(params, s: str):
     require(re == s, "components do not recompose", s=s, got=re)
 
 
+# long components (digit-width boundaries of the epoch: 9/10 digits, 2**31, 2**32, 2**64; long upstream/revision)
+LONG_PREFIX = ["2147483647:", "2147483648:", "4294967296:", "18446744073709551616:", "0000000000:", "999999999:", "20240131120000:2:",
+               "1.0~git20240101120000+really", "1:" + "9" * 40, ""]
+LONG_SUFFIX = ["", "-1", "-0ubuntu0.22.04.1~bpo11+1", "1.0", ".5-10:1"]
+
+
+def h_accept_long(params, pi: int, si: int, x: str):
+    """Acceptance/decomposition on long strings: catalogue prefix + symbolic middle + catalogue suffix."""
+    assume(0 <= pi < len(LONG_PREFIX) and 0 <= si < len(LONG_SUFFIX))
+    assume(len(x) == params["len"])
+    if "pis" in params:
+        assume(params["pis"][0] <= pi < params["pis"][1])
+    s = LONG_PREFIX[pi] + x + LONG_SUFFIX[si]
+    assume(len(s) > 0)
+    h_accept({}, s)
+    reach(params, "end")
+
+
+def h_assign_long(params, pi: int, si: int, ai: int, vi: int):
+    """Assignment of long catalogue values to a component of a long catalogue version."""
+    assume(0 <= pi < len(LONG_PREFIX) and 0 <= si < len(LONG_SUFFIX) and 0 <= ai < 3 and 0 <= vi < len(LONG_VALUES))
+    s = LONG_PREFIX[pi] + "7" + LONG_SUFFIX[si]
+    sp = spec_parse(s)
+    assume(sp is not None and sp != "edge")
+    v = Version(s)
+    _assign_once(v, ATTRS[ai], LONG_VALUES[vi])
+    _assign_once(v, ATTRS[(ai + 1) % 3], LONG_VALUES[(vi + 3) % len(LONG_VALUES)])
+    reach(params, "assigned")
+
+
+LONG_VALUES = [None, "4294967296", "2147483648", "0", "2024:1.4-rc1", "1.4.1", "2:3.0", "0ubuntu1~22.04", "12345678901234567890", "x:1"]
 ATTRS = ["epoch", "upstream_version", "debian_revision", "debian_version", "full_version"]
 
 
@@ -296,6 +327,17 @@ def partitions(tier, seed):
                 P.append(dict(name="assign1/%s/len%d/v%s" % (attr, n, vl), harness="h_assign",
                               params=dict(len=n, vlen=vl, attr=attr, steps=1), budget=bud,
                               bounds="any valid version of length %d; %s = %s" % (n, attr, "None" if vl is None else "any string of length %d" % vl)))
+    for ln in ((0, 1) if tier == "quick" else (0, 1, 2, 3)):
+        step = 5 if ln == 0 else (2 if tier == "quick" else 1)
+        for lo in range(0, len(LONG_PREFIX), step):
+            P.append(dict(name="accept-long/len%d/prefix%d-%d" % (ln, lo, lo + step), harness="h_accept_long", params=dict(len=ln, pis=[lo, lo + step]),
+                          budget=90 if tier == "quick" else 900, reach=["end"],
+                          bounds="catalogue prefixes %d..%d of %d (epochs around 2**31, 2**32, 2**64, 10 zeros, 40-digit upstream...) + %d arbitrary chars + %d catalogue suffixes" % (lo, lo + step - 1, len(LONG_PREFIX), ln, len(LONG_SUFFIX))))
+    P.append(dict(name="assign-long", harness="h_assign_long", params={}, budget=90 if tier == "quick" else 900, reach=["assigned"],
+                  bounds="two consecutive assignments of %d catalogue values (None, 2**31, 2**32, 20 digits, values containing ':' and '-') to epoch/upstream/revision of the long catalogue versions" % len(LONG_VALUES)))
+    if tier == "quick":
+        P.append(dict(name="assign1/upstream_version/len1/v3", harness="h_assign", params=dict(len=1, vlen=3, attr="upstream_version", steps=1), budget=60,
+                      bounds="any valid version of length 1; upstream_version = any string of length 3 (e.g. 'd:x': the value brings its own epoch)"))
     if tier != "quick":
         for attr in ATTRS:
             for n in (1, 2):
